@@ -135,6 +135,9 @@ func vfLoadMenu(t *testing.T) *vfMenu {
 	return &m
 }
 
+// the non-ASCII delimiters of the menu (MC_Fields.tla U8Delims): the id names the symbols the pattern is made of
+var vfU8Delims = map[string][]string{"e~": {"e~"}, "bxv": {"bxv"}, "e~bxv": {"e~", "bxv"}, "[e~bxv]": {"e~", "bxv"}}
+
 // the command-line spelling of a menu delimiter ("" = none: regex forced in-package only)
 func vfDelimArg(d vfDelim) (string, bool) {
 	switch d.Kind {
@@ -144,10 +147,16 @@ func vfDelimArg(d vfDelim) (string, bool) {
 		if d.Id == "TAB" {
 			return "\\t", true
 		}
+		if syms, ok := vfU8Delims[d.Id]; ok && d.Id[0] != '[' {
+			return verifText(syms), true
+		}
 		return d.Id, true
 	case "re":
 		if d.Id == "[,:]" || d.Id == ",+" {
 			return d.Id, true
+		}
+		if syms, ok := vfU8Delims[d.Id]; ok && d.Id[0] == '[' {
+			return "[" + verifText(syms) + "]", true
 		}
 	}
 	return "", false
@@ -163,6 +172,9 @@ func vfDelimiter(d vfDelim) (Delimiter, error) {
 		del := delimiterRegexp(arg)
 		if d.Kind == "str" && del.str == nil || d.Kind == "re" && del.regex == nil {
 			return del, fmt.Errorf("delimiterRegexp(%q) is not of kind %s", arg, d.Kind)
+		}
+		if d.Kind == "str" && *del.str != strings.ReplaceAll(arg, "\\t", "\t") {
+			return del, fmt.Errorf("delimiterRegexp(%q): literal %q", arg, *del.str)
 		}
 		return del, nil
 	}
